@@ -939,6 +939,36 @@ def _corpus_job(job):
     return _pack(stats), [v.to_json() for v in viols[:200]], samples
 
 
+ENCODED_SOURCES = {
+    # name -> bytes of a module whose decoding depends on its PEP 263 declaration / BOM
+    "latin1-cookie": b"# -*- coding: latin-1 -*-\n\"\"\"doc caf\xe9\"\"\"\nNAME = 'caf\xe9'\ndef f(x: int = 0) -> int:\n    'f caf\xe9'\n    return x\n",
+    "latin1-utf8-lookalike": b"# coding: iso-8859-1\nNAME = 'caf\xc3\xa9'\ndef f(x: int = 0) -> int:\n    return len('\xc3\xa9')\n",
+    "cp1252-cookie": b"# vim: set fileencoding=cp1252 :\nEURO = '\x80'\nclass K:\n    def m(self):\n        return '\x80'\n",
+    "utf8-bom": b"\xef\xbb\xbf\"\"\"doc \xc3\xa9\"\"\"\ndef f():\n    return '\xc3\xa9'\n",
+    "utf8-cookie-second-line": b"#!/usr/bin/env python\n# -*- coding: utf-8 -*-\ndef f():\n    return '\xe2\x82\xac'\n",
+    "crlf": b"\"\"\"doc\"\"\"\r\ndef f(x: int = 0) -> int:\r\n    return x\r\n",
+}
+
+
+def _encoding_job(job):
+    """Modules whose bytes must be decoded according to their own encoding declaration: the
+    hooked compile must see the same text as the plain compile."""
+    common.bind_repo()
+    E = env()
+    stats = dict_counter()
+    viols, samples = [], []
+    for name, data in ENCODED_SOURCES.items():
+        for tcname in TC_SPECS:
+            path = f"/c10-generated/encoded_{name}.py"
+            r = check_static(E, data, path, [tcname], stats)
+            if r[0] == "rejected":
+                raise common.HarnessError(f"encoded source {name} is rejected by the plain compile: {r[1]}")
+            stats["programs"] += 1
+            for orc, detail in r[1][tcname]:
+                viols.append(_viol_corpus(f"encoded/{name}", path, tcname, orc, detail))
+    return _pack(stats), [v.to_json() for v in viols], samples
+
+
 def _gen_job(job):
     common.bind_repo()
     E = env()
@@ -1030,9 +1060,10 @@ def run(ctx):
             ip_items.append((seq, k, list(nest), (len(seq) <= 2) and (k, tuple(nest)) in {(0, ()), (2, ("def", "class")), (1, ("class", "def"))}))
     for idx in common.shards(len(ip_items), common.NCPU if ctx.quick else common.NCPU * 2, ctx.seed):
         jobs.append(("ipython", dict(items=[ip_items[i] for i in idx])))
+    jobs.append(("encoding", {}))
     outs = common.pmap(_dispatch, jobs)
     # deterministic merge: by job kind then by first element
-    order = sorted(range(len(jobs)), key=lambda i: (jobs[i][0], repr(sorted(map(repr, jobs[i][1].get("files", jobs[i][1].get("seqs", jobs[i][1].get("items"))))))[:200]))
+    order = sorted(range(len(jobs)), key=lambda i: (jobs[i][0], repr(sorted(map(repr, jobs[i][1].get("files", jobs[i][1].get("seqs", jobs[i][1].get("items", []))))))[:200]))
     per = {"corpus": dict_counter(), "gen": dict_counter(), "ipython": dict_counter()}
     viols, samples = [], []
     cpu = {}
@@ -1041,7 +1072,7 @@ def run(ctx):
         st, vs, sm = outs[i]
         label = jobs[i][1].get("label", kind)
         cpu[label] = round(cpu.get(label, 0) + st.get("cpu_s", 0), 1)
-        per[kind] = _merge(per[kind], st)
+        per["corpus" if kind == "encoding" else kind] = _merge(per["corpus" if kind == "encoding" else kind], st)
         viols += [Violation(**v) for v in vs]
         samples += sm
     viols.sort(key=lambda v: v.key)
@@ -1137,7 +1168,7 @@ def _merge(a, b):
 def _dispatch(job):
     kind, payload = job
     t0 = time.process_time()
-    out = {"corpus": _corpus_job, "gen": _gen_job, "ipython": _ipython_job}[kind](payload)
+    out = {"corpus": _corpus_job, "gen": _gen_job, "ipython": _ipython_job, "encoding": _encoding_job}[kind](payload)
     out[0]["cpu_s"] = time.process_time() - t0
     return out
 
@@ -1147,8 +1178,11 @@ def replay(rep):
     E = env()
     stats = dict_counter()
     if rep["kind"] == "corpus":
-        with open(rep["path"], "rb") as f:
-            data = f.read()
+        if rep.get("relkey", "").startswith("encoded/"):
+            data = ENCODED_SOURCES[rep["relkey"].split("/", 1)[1]]
+        else:
+            with open(rep["path"], "rb") as f:
+                data = f.read()
         r = check_static(E, data, rep["path"], [rep["tc"]], stats)
         if r[0] == "rejected":
             return dict(violates=False, note=f"compile() rejects the file ({r[1]})")
